@@ -797,6 +797,7 @@ func isConfigGetter(n string) bool {
 }
 
 var c11Canaries = []Canary{
+	{Name: "r6-fetch-paths-first-value", ExpectKey: "C11.R2#fetch-paths:last-value-wins", Edits: []Edit{{File: "config/config.go", Find: "}\n\nfunc (c *Configuration) FetchIncludePaths() []string {\n\tpatterns, _ := c.Git.Get(\"lfs.fetchinclude\")\n\treturn tools.CleanPaths(patterns, \",\")\n}\n\nfunc (c *Configuration) FetchExcludePaths() []string {\n\tpatterns, _ := c.Git.Get(\"lfs.fetchexclude\")\n\treturn tools.CleanPaths(patterns, \",\")\n}\n\nfunc (c *Configuration) CurrentRef() *git.Ref {\n", Repl: "}\n\nfunc (c *Configuration) FetchIncludePaths() []string {\n\treturn c.fetchPaths(\"lfs.fetchinclude\")\n}\n\nfunc (c *Configuration) FetchExcludePaths() []string {\n\treturn c.fetchPaths(\"lfs.fetchexclude\")\n}\n\n// fetchPaths returns the cleaned path patterns of a comma-separated option,\n// which may be given more than once.\nfunc (c *Configuration) fetchPaths(key string) []string {\n\tvar paths []string\n\tfor _, patterns := range c.Git.GetAll(key) {\n\t\tpaths = append(paths, tools.CleanPaths(patterns, \",\")...)\n\t}\n\treturn paths\n}\n\nfunc (c *Configuration) CurrentRef() *git.Ref {\n"}}},
 	{Name: "r5-extension-command-unrestricted", ExpectKey: "C11.R5#extension-command", Edits: []Edit{{File: "config/git_fetcher.go", Find: "\t\t\t\tcase \"clean\":\n\t\t\t\t\tif gc.OnlySafeKeys {\n\t\t\t\t\t\tignored = append(ignored, key)\n\t\t\t\t\t\tcontinue\n\t\t\t\t\t}\n\t\t\t\t\text.Clean = val", Repl: "\t\t\t\tcase \"clean\":\n\t\t\t\t\text.Clean = val"}}},
 	{Name: "r4-duplicate-values-dropped", ExpectKey: "C11.R2#readGitConfig:every", Edits: []Edit{{File: "config/git_fetcher.go", Find: "\t\t\tvals[key] = append(vals[key], val)", Repl: "\t\t\tif len(vals[key]) > 0 && vals[key][len(vals[key])-1] == val {\n\t\t\t\tcontinue\n\t\t\t}\n\t\t\tvals[key] = append(vals[key], val)"}}},
 	{Name: "add-unsafe-safe-key", ExpectKey: "C11.R1#safeKeys[\"lfs.standalonetransferagent\"]", Edits: []Edit{{File: "config/git_fetcher.go", Find: "	\"lfs.url\",\n}", Repl: "	\"lfs.url\",\n	\"lfs.standalonetransferagent\",\n}"}}},
